@@ -209,7 +209,12 @@ def sp_time(tid: int, crit: bool, lform: int, i0: int, i1: int, i2: int, i3: int
     pre: 0 <= i0 < 4 and 0 <= i1 < 4 and 0 <= i2 < 4 and 0 <= i3 < 4
     post: _
     """
-    return one_subpacket(tid, crit, lform, bytearray([TVALS[i0], TVALS[i1], TVALS[i2], TVALS[i3]]))
+    octs = [0, 0, 0, 0]
+    for j, idx in enumerate((i0, i1, i2, i3)):          # concrete octet per path: symbolic durations/dates end up in float and C code
+        for k in range(4):
+            if idx == k:
+                octs[j] = TVALS[k]
+    return one_subpacket(tid, crit, lform, bytearray(octs))
 
 
 @ob('O5.1-issuer', 'issuer key id (8 octets) hashed verbatim', 'critical bit, length form 1/5, 8 symbolic octets',
